@@ -60,7 +60,18 @@ impl<'a, N: Normalizer> Html5Serializer<'a, N> {
         cdata_section_names: &'a [NameId],
         normalizer: N,
     ) -> Self {
-        let extra_declarations = xot.namespaces_in_scope(node).collect();
+        // An inherited default namespace is only written on the top element
+        // when that element is in it (see the Prefix case below); otherwise it
+        // is not in force in the output and must not be assumed further down.
+        let top_namespace = xot
+            .element(node)
+            .map(|element| xot.namespace_for_name(element.name()));
+        let extra_declarations = xot
+            .namespaces_in_scope(node)
+            .filter(|(prefix, namespace)| {
+                *prefix != xot.empty_prefix() || Some(*namespace) == top_namespace
+            })
+            .collect();
         let fullname_serializer = FullnameSerializer::new(xot, extra_declarations);
         Self {
             xot,
